@@ -87,6 +87,10 @@ class Counters(EngineBase):
         for c in b["cpu_ids"]:
             ticks[str(c)] = [rng.randrange(0, 5000) for _ in range(10)]
         b["cpu_ticks"] = ticks
+        if rng.random() < 0.3:
+            # a CPU went offline earlier: its accumulated time stays in the
+            # "cpu" total line only
+            b["cpu_offline"] = [rng.randrange(0, 5000) for _ in range(10)]
         return b
 
     # ==================================================================
@@ -424,8 +428,11 @@ class Counters(EngineBase):
         def table_of(rows):
             return {c: list(rows[c]) for c in cpu_ids}
 
+        off = boot.get("cpu_offline") or [0] * 10
+
         def total_row(tab):
-            return [sum(tab[c][i] for c in cpu_ids) for i in range(10)]
+            return [off[i] + sum(tab[c][i] for c in cpu_ids)
+                    for i in range(10)]
 
         imp = {int(c): list(r) for c, r in boot["cpu_ticks"].items()}
         # psutil's four per-thread sample stores; thread 0 imported psutil
